@@ -596,7 +596,7 @@ theorem build_sat (rx : RegexOk) (lim : Nat) (sn sd : Bool) (ast : Ast) (fl : Fl
         all_goals (split; exact BSat.error _)
         all_goals
           refine BSat.bind' (ih _ hk hst) fun ao hbuild hao => ?_
-          extract_lets argsQ props0 fi props q jp
+          extract_lets argsQ props0 fi props q st1 jp
           have hargsQ : argsQ.noNil = true := by
             show Plan.noNil (if _ then _ else _) = true
             split
@@ -630,7 +630,15 @@ theorem build_sat (rx : RegexOk) (lim : Nat) (sn sd : Bool) (ast : Ast) (fl : Fl
                 | none => left; rfl
                 | some f => right; exact hao.2 f hfi
               · left; rfl
-          have hjp : ∀ u, BSat BOut.good (jp u) := fun u => BSat.ok ⟨hq, hao.2⟩
+          have hjp : ∀ u, BSat BOut.good (jp u) := fun u => by
+            show BSat BOut.good (if _ then _ else _)
+            split
+            · exact BSat.error _
+            · refine BSat.ok ⟨hq, ?_⟩
+              show BState.ok (build.leave (if _ then _ else _))
+              split
+              · intro f hf; cases hf; rfl
+              · exact hao.2
           clear_value jp
           repeat' split
           all_goals first | exact hjp _ | exact BSat.error _
@@ -907,7 +915,7 @@ theorem build_good (rx : RegexOk) (lim : Nat) (sn sd : Bool) (ast : Ast) (fl : F
         all_goals (split; exact BSat.error _)
         all_goals
           refine BSat.bind' (ih _ hk hst) fun ao hbuild hao => ?_
-          extract_lets argsQ props0 fi props q jp
+          extract_lets argsQ props0 fi props q st1 jp
           have hao1 := hao.2.1 hargs
           have hargsQ : argsQ.goodArgs = true := by
             show Plan.goodArgs (if _ then _ else _) = true
@@ -944,8 +952,15 @@ theorem build_good (rx : RegexOk) (lim : Nat) (sn sd : Bool) (ast : Ast) (fl : F
                 | none => left; rfl
                 | some f => right; exact hao.2.2 f hfi
               · left; rfl
-          have hjp : ∀ u, BSat (fun o : BOut => o.q.good = true ∧ o.st.okG) (jp u) :=
-            fun u => BSat.ok ⟨hq, hao.2.2⟩
+          have hjp : ∀ u, BSat (fun o : BOut => o.q.good = true ∧ o.st.okG) (jp u) := fun u => by
+            show BSat _ (if _ then _ else _)
+            split
+            · exact BSat.error _
+            · refine BSat.ok ⟨hq, ?_⟩
+              show BState.okG (build.leave (if _ then _ else _))
+              split
+              · intro f hf; cases hf; rfl
+              · exact hao.2.2
           clear_value jp
           repeat' split
           all_goals first | exact hjp _ | exact BSat.error _
